@@ -480,11 +480,43 @@ def rule_e9(repo):
                     i = f.params().index(other.id)
                     outer = f.parent
                     oflow = flow_of(outer.node)
+                    # the conditions under which this expression is evaluated inside the helper: (test, branch taken)
+                    conds, x, understood = [], b, True
+                    while id(x) in parents:
+                        par = parents[id(x)]
+                        if isinstance(par, ast.IfExp) and x is not par.test:
+                            conds.append((par.test, x is par.body))
+                        elif isinstance(par, ast.If) and x is not par.test:
+                            conds.append((par.test, any(x is st for st in par.body)))
+                        x = par
+
+                    def flag_value(test, call):
+                        # the test is a parameter of the helper (or its negation) and the call passes a literal for it
+                        neg = False
+                        while isinstance(test, ast.UnaryOp) and isinstance(test.op, ast.Not):
+                            test, neg = test.operand, not neg
+                        if not (isinstance(test, ast.Name) and test.id in f.params()):
+                            return None
+                        j = f.params().index(test.id)
+                        arg = call.args[j] if len(call.args) > j else next((k.value for k in call.keywords if k.arg == test.id), None)
+                        if isinstance(arg, ast.Constant) and isinstance(arg.value, bool):
+                            return arg.value != neg
+                        return None
                     for c in ast.walk(outer.node):
                         if isinstance(c, ast.Call) and is_name(c.func, f.name) and len(c.args) > i:
+                            taken = True
+                            for test, branch in conds:
+                                if any(isinstance(n_, ast.Name) and n_.id in f.params() for n_ in ast.walk(test)):
+                                    v_ = flag_value(test, c)
+                                    if v_ is None:
+                                        understood = False
+                                    elif v_ != branch:
+                                        taken = False
                             e2 = end_of_path(oflow.inline(c.args[i]))
-                            if e2:
+                            if e2 and taken:
                                 ends.add(e2)
+                    if not understood:
+                        continue            # chosen by a condition on the helper's parameters that is not a literal flag: not judged
                 if not ends:
                     continue
                 want = {'upper': 'minus', 'lower': 'plus'}
